@@ -27,13 +27,29 @@ def exhaust(view, tags, clauses, qd=3, td=6):
             "quick": {"cases": 1, "shards": 16, "extra": ["--exhaust", str(qd)]} if qd else None,
             "thorough": {"cases": 1, "shards": 16, "extra": ["--exhaust", str(td)]}}
 
+def sys_link(q=20, t=200, quick=True):
+    """link check of the composed model Sys (checks/sys_link.py): the job view and the core view of the same runs merged into
+    world actions and replayed through Sys.step by hqm-sys (side conditions Sys.OpOk, routed callbacks, registry equality)"""
+    return {"component": "sys", "driver": "hqm-sys", "name": "sys_link", "runner": ("sys_link", "run"), "tags": [], "clauses": ["sys."],
+            "quick": {"cases": q, "shards": 12, "extra": []} if quick else None,
+            "thorough": {"cases": t, "shards": 16, "extra": []}}
+
+SYS_NOTE = ("sys_* theorems are about the COMPOSED model Sys = job layer M4 x core M1 (HqModel/Sys/Model.lean): every callback of the core is "
+            "routed in order to the job layer, the lists on_task_error returns are checked against the rets the core consumed, client "
+            "cancel / submit carry exactly what the job layer hands to the core; they hold for every run under the decidable side "
+            "conditions Sys.OpOk (Core.OpOk2 + FinProto: a Finished update comes for a task the core has as Running - a worker-protocol "
+            "assumption + fresh worker ids + SubmitOk); the composition is tied to the code by the link check (part sys_link): real runs "
+            "replayed through Sys.step, Sys.OpOk evaluated on every real action, routed callbacks compared with the cb.* operations the real "
+            "job layer received, registry equality evaluated on every composed state")
+
 def journal(clauses, q=8, t=40):
     """restart clause of a sim property: generated and real (kind sim) journals restored at every prefix by the real StateRestorer"""
     return {"component": "journal", "driver": "hqm-journal", "tags": ["res", "sub", "adj", "core", "prod"], "clauses": clauses,
             "quick": {"cases": q, "shards": 12, "extra": []}, "thorough": {"cases": t, "shards": 16, "extra": []}}
 
 def entry(pid, theorems, parts, extra_assumptions=()):
-    return {"module": "HqModel.Props." + pid, "theorems": ["HqModel.%s.%s" % (pid, t) for t in theorems], "parts": parts,
+    return {"module": "HqModel.Props." + pid, "theorems": [t[1:] if t.startswith("@") else "HqModel.%s.%s" % (pid, t) for t in theorems],
+            "parts": parts,
             "assumptions": [MODEL_NOTE, PARTIAL] + list(extra_assumptions), "trusted_base": SIM_TRUST}
 
 PROPS = {
@@ -41,10 +57,11 @@ PROPS = {
                          "c01_core_forgets_reachable"],
                  [job(["ev", "tasks", "job"], ["c01."]), core(["cb", "t"], ["c01.", "core.hyp"]),
                   exhaust("job", ["ev", "tasks", "job"], ["c01."], qd=None)]),
-    "C02": entry("C02", ["c02_submit_ids", "c02_auto_ids_agree"],
+    "C02": entry("C02", ["c02_submit_ids", "c02_auto_ids_agree", "@HqModel.Sys.sys_registry", "@HqModel.Sys.sys_coupled",
+                         "@HqModel.Sys.sys_job_run", "@HqModel.Sys.sys_core_run"],
                  [job(["core", "live", "resp", "tasks"], ["c02."]), core(["t", "q", "flag"], ["c02."]),
-                  exhaust("core", ["t", "q", "flag"], ["c02."], qd=None)],
-                 ["progress ('eventually terminal') depends on HiGHS returning an optimal solution and on the fair drain; monitored at rest "
+                  exhaust("core", ["t", "q", "flag"], ["c02."], qd=None), sys_link()],
+                 [SYS_NOTE, "progress ('eventually terminal') depends on HiGHS returning an optimal solution and on the fair drain; monitored at rest "
                   "after a fault-free drain of every generated run, not proved"]),
     "C03": entry("C03", ["c03_not_ready_with_deps", "c03_restart", "depClosed_iff", "c03_compute_only_ready", "c03_compute_only_ready_run",
                          "c03_consumers_waiting_reachable"],
@@ -59,11 +76,17 @@ PROPS = {
                   "which hqm-job evaluates on every real operation) and additionally validated on every run on journals the real server "
                   "persists in simulated cluster runs, restored at every record boundary (monitor c03.restart)"]),
     "C05": entry("C05", ["c05_reserve_exact", "c05_release_restores", "c05_inv_partial", "c05_resinv_reachable", "c05_free_le_total",
-                         "c05_f29_witness", "c05_reject_witness", "c05_worker_task_wf"],
+                         "c05_f29_witness", "c05_reject_witness", "c05_worker_task_wf",
+                         "c05_queue_inv_reachable", "c05_ready_unlisted", "c05_queue_redundant", "c05_queue_redundant2", "c05_queue_step",
+                         "c05_resinv_reachable'", "c05_free_le_total'", "c05_worker_task_wf'", "c03_compute_only_ready_run'",
+                         "c03_consumers_waiting_reachable'", "c05_queue_reuse_witness", "c05_queue_stale_witness",
+                         "c05_queue_dup_dep_witness"],
                  [core(["msg", "w", "rd", "t", "q"], ["c05.", "core.hyp"])],
                  ["c05_inv_partial / c05_resinv_reachable: the resource equation free + sum(reserved) = total is an inductive invariant of EVERY "
                   "operation of the core model under decidable side conditions (StepHyp: fresh worker record, request names a resource once, "
-                  "Reject comes from the assigned worker, QueueOkD / SolMnOk before a scheduling round (RdIn is a proved consequence of the invariant); NoSaturation: a Running / "
+                  "Reject comes from the assigned worker, SolMnOk for a scheduling round; the queue/dependency clause QueueOkD and the redirect clause RdIn are "
+                  "no longer hypotheses: they are PROVED invariants (c05_queue_inv_reachable, for runs in which no task id is submitted twice: "
+                  "NoIdReuse, shown necessary by c05_queue_reuse_witness; the primed corollaries restate the history theorems without QueueOkD); NoSaturation: a Running / "
                   "RunningPrefilled of a Prefilled or Retracting task fits the free vector); the compiled model evaluates every side condition "
                   "on the pre-state of every operation of every real trace (model-side monitor c05.hyp): all hold on the unchanged tree except "
                   "NoSaturation, whose failure is finding F29 (c05_f29_witness shows it cannot be dropped)"]),
@@ -84,15 +107,21 @@ PROPS = {
     "C07": entry("C07", ["c07_crash_decision", "c07_unlimited_never_fails", "c07_stop_is_no_crash", "c07_job_layer", "c07_crash_counter_step",
                          "c07_crash_counter_mono", "c07_crash_only_running_on_lost", "c07_restart", "c07_restart_emitted", "c07_crashes_step"],
                  [core(["cb", "t", "q", "msg"], ["c07.", "core.hyp"]), job(["ev", "tasks", "job", "ret"], ["c07."]), journal(["c07.restart"])]),
-    "C08": entry("C08", ["c08_all_terminal", "c08_idempotent", "c08_other_jobs", "c08_core_forgets", "c08_core_forgets_reachable"],
+    "C08": entry("C08", ["c08_all_terminal", "c08_idempotent", "c08_other_jobs", "c08_core_forgets", "c08_core_forgets_reachable",
+                         "@HqModel.Sys.sys_cancel_final", "@HqModel.Sys.sys_cancel_no_callback"],
                  [job(["ev", "resp", "tasks", "job", "live"], ["c08."]), core(["msg", "t", "w", "q", "rd", "cb"], ["c08.", "core.hyp"]),
-                  exhaust("job", ["ev", "resp", "tasks", "job", "live"], ["c08."], qd=None)]),
-    "C09": entry("C09", ["c09_open_close_no_panic", "c09_forget_no_panic", "c09_cancel_no_panic"],
+                  exhaust("job", ["ev", "resp", "tasks", "job", "live"], ["c08."], qd=None), sys_link(quick=False)]),
+    "C09": entry("C09", ["c09_open_close_no_panic", "c09_forget_no_panic", "c09_cancel_no_panic", "@HqModel.Sys.sys_no_job_panic",
+                         "@HqModel.Sys.sys_run_no_job_panic", "@HqModel.Sys.sys_started_running", "@HqModel.Sys.sys_outcome_once"],
                  [job(["ev", "resp", "ret", "core", "job", "tasks", "live"], ["c09."]),
                   core(["msg", "cb", "flag", "t", "w", "q", "rd"], ["c09."]),
                   exhaust("core", ["msg", "cb", "flag", "t", "w", "q", "rd"], ["c09."]),
-                  exhaust("job", ["ev", "resp", "ret", "core", "job", "tasks", "live"], ["c09."])],
-                 ["a panic inside an unmodelled dependency (tokio, HiGHS, bincode) is outside the claim"]),
-    "C14": entry("C14", ["c14_decision", "c14_abort_all"],
-                 [job(["ret", "ev", "tasks", "job"], ["c14."]), core(["msg", "cb", "t"], ["c14."])]),
+                  exhaust("job", ["ev", "resp", "ret", "core", "job", "tasks", "live"], ["c09."]), sys_link()],
+                 [SYS_NOTE, "a panic inside an unmodelled dependency (tokio, HiGHS, bincode) is outside the claim"]),
+    "C14": entry("C14", ["c14_decision", "c14_abort_all", "@HqModel.Sys.sys_max_fails"],
+                 [job(["ret", "ev", "tasks", "job"], ["c14."]), core(["msg", "cb", "t"], ["c14."]), sys_link(quick=False)],
+                 [SYS_NOTE]),
 }
+
+# C05's theorems about the queue invariant live in a module that imports Props.C05
+PROPS["C05"]["module"] = "HqModel.Props.C05Queue"
